@@ -3,6 +3,9 @@ mod alloc;
 mod classes;
 mod elem;
 mod interp;
+mod interp_ctor;
+mod interp_vec;
+mod interp_vec2;
 mod interp_iter;
 mod interp_ops;
 mod parent;
